@@ -198,6 +198,8 @@ def gen_schema(rng, sw):
             for _d in range(nd):
                 if sw.get("dyn_shape") and rng.random() < 0.45:
                     shape.append(None)
+                elif sw.get("zero_static") and schema[item]["k"] == "sc" and rng.random() < 0.12:
+                    shape.append(0)  # a static dimension of length 0 is a legal (empty) array type
                 else:
                     shape.append(rng.choice([1, 2, 2, 3, 4]))
             order = list(range(nd))
@@ -222,7 +224,10 @@ def gen_schema(rng, sw):
             else:
                 name = sname
             names.add(name)
-            schema.append({"k": "array", "name": name, "item": item, "shape": shape, "order": order, "decl": decl, "order_decl": order_decl})
+            arr = {"k": "array", "name": name, "item": item, "shape": shape, "order": order, "decl": decl, "order_decl": order_decl}
+            if sw.get("np_dims") and (nd > 1 or decl == "class") and rng.random() < 0.5:
+                arr["np_dims"] = True  # dimensions given as numpy integers
+            schema.append(arr)
         elif kind == "ref":
             to = rng.choice(targets[-5:])
             if any(ty["k"] == "ref" and ty["to"] == to for ty in schema):
@@ -303,17 +308,20 @@ def build_classes(schema, module=None, hybrids=None):
             cls = type(ty["name"], (xo.Struct,), data)
         elif k == "array":
             item = out[ty["item"]]
+            import numpy as _np
+
+            dims = [(_np.int64(d) if (d is not None and ty.get("np_dims")) else d) for d in ty["shape"]]
             if ty["decl"] == "sugar":
-                spec = tuple(slice(d, o) for d, o in zip(ty["shape"], ty["order"]))
+                spec = tuple(slice(d, o) for d, o in zip(dims, ty["order"]))
                 nd = len(spec)
                 if list(ty["order"]) == list(range(nd)):
-                    spec = tuple(slice(d, None) if d is None else d for d in ty["shape"])
+                    spec = tuple(slice(d, None) if d is None else d for d in dims)
                 if nd == 1:
                     spec = spec[0]
                 cls = item[spec]
                 assert cls.__name__ == ty["name"], (cls.__name__, ty["name"])
             else:
-                data = {"_itemtype": item, "_shape": tuple(ty["shape"])}
+                data = {"_itemtype": item, "_shape": tuple(dims)}
                 if ty.get("order_decl"):
                     data["_order"] = ty["order_decl"]
                 elif list(ty["order"]) != list(range(len(ty["shape"]))):
